@@ -76,6 +76,7 @@ HARNESSES = [
          cases=[dict(id="all", tier="quick")]),
     dict(name="inode_kind", file="inode_kind.c", label="proved", unwind=70,
          nochecks=["--conversion-check"], timeout=120,
+         native_sources=["lib/util/src/alloc.c"],
          cases=[dict(id="type%d" % t, defines={"TYPE": t}, tier="quick")
                 for t in range(0, 15)]),
     dict(name="ids_write", file="ids_write.c", label="proved", timeout=170,
